@@ -145,6 +145,16 @@ def history_witness(prog, done, seed):
         try:
             r = opmap[base](m)
             if base == 'copy':
+                # a copy behaves like its original: same outputs and, if enabled, the same sensitivities (shape and values)
+                xx = np.linspace(0.6, 1.4, m.n_parameters())
+                tt = [0.5, 1.5, 3.0]
+                ra, rb = m.simulate(xx, tt), r.simulate(xx, tt)
+                ra = list(ra) if isinstance(ra, tuple) else [ra]
+                rb = list(rb) if isinstance(rb, tuple) else [rb]
+                if len(ra) != len(rb) or any(np.shape(u) != np.shape(v) or not np.allclose(u, v, rtol=1e-6, atol=1e-9) for u, v in zip(ra, rb)):
+                    return {'what': 'after the history [%s] the copy simulates %s, its original %s (outputs%s)' % (' -> '.join(done[:len(hist) + 1]), [np.shape(v) for v in rb], [np.shape(u) for u in ra],
+                                                                                                                    ' and sensitivities' if len(ra) > 1 else ''),
+                            'history': list(done), 'expected': [np.shape(u) for u in ra], 'observed': [np.shape(v) for v in rb]}
                 m = r
         except Exception as ex:
             if nm.endswith('!'):
@@ -157,7 +167,7 @@ def history_witness(prog, done, seed):
     adm = m.administration()
     try:
         if adm is not None:
-            f.set_administration(adm['compartment'], direct=adm['direct'])
+            f.set_administration(adm['compartment'], amount_var=getattr(m, '_c11_amount_var', 'drug_amount'), direct=adm['direct'])
         if m.dosing_regimen() is not None:
             f.set_dosing_regimen(m.dosing_regimen())
         f.set_outputs(list(m._output_names))
@@ -184,7 +194,22 @@ def history_witness(prog, done, seed):
     x = np.linspace(0.6, 1.4, f.n_parameters())
     times = [0.5, 1.2, 2.0, 4.5]
     try:
-        a_ = np.asarray(m.simulate(x, times)[0] if m.has_sensitivities() else m.simulate(x, times))
+        if m.has_sensitivities():
+            a_, sa_ = m.simulate(x, times)
+            a_ = np.asarray(a_)
+            # the fresh model with the same (published) sensitivity selection must give the same sensitivities, output by output
+            sel = getattr(m, '_sensitivity_parameter_names', None)
+            ren = {f._parameter_name_map[k_]: m._parameter_name_map[k_] for k_ in f._parameter_names if k_ in m._parameter_name_map and f._parameter_name_map[k_] != m._parameter_name_map[k_]}
+            if ren:
+                f.set_parameter_names(ren)          # the published names of the history (a selection is given by published names)
+            f.enable_sensitivities(True, sel)
+            _, sb_ = f.simulate(x, times)
+            f.enable_sensitivities(False)
+            if np.shape(sa_) != np.shape(sb_) or not np.allclose(sa_, sb_, rtol=1e-5, atol=1e-8):
+                return dict(case, what='sensitivities after the history differ from a fresh model with the same outputs %s and selection %s (shapes %s / %s): they belong to other outputs / parameters' % (
+                    list(m._output_names), sel, np.shape(sa_), np.shape(sb_)), expected=np.asarray(sb_).tolist(), observed=np.asarray(sa_).tolist())
+        else:
+            a_ = np.asarray(m.simulate(x, times))
         b_ = np.asarray(f.simulate(x, times))
     except Exception as ex:
         return dict(case, what='simulate after the history raises %r' % (ex,), expected='solution', observed=repr(ex))
